@@ -269,6 +269,7 @@ def t05_order(run, fx):
 def check(run, fx, tier, floors=True):
     import speclayout
     speclayout.rule_layouts(run, fx, "T05-LAYOUT", ["layout", "kern"], floors)
+    speclayout.rule_records(run, fx, "T05-REC", ['layout', 'kern'], floors)
     run.rule("T05-TYPE", "GPOS::check_lookup_type is the table {1: SinglePos, 2: PairPos, 3: CursivePos, 4: MarkBasePos, 5: MarkLigPos, 6: MarkMarkPos, "
                          "7: ContextPos, 8: ChainContextPos, 9: Extension}; every other number is an error")
     rules_C04.lookup_type_table(run, fx, "T05-TYPE", "<layout::GPOS as layout::LayoutTableType>::check_lookup_type", GPOS_TYPES, "GPOS")
